@@ -265,6 +265,20 @@ first allocation and by `ReadOnce` (regenerated list of uses) -/
 theorem read_path_vocabulary :
     ReadLoop.mutatingUses MosnVerif.Gen.ReadLoopConn.readBufferUses = ReadLoop.expectedMutatingUses := by decide
 
+/-- the two further copies of the statement in netpoll mode (read-timeout timer callback, event-loop `onRead`) also fire
+only on an empty buffer, for every network and default size; and nothing else in pkg/network discards or consumes a
+connection's read buffer (regenerated list of such calls is empty).  Proof over the regenerated conditions only: the
+netpoll event loop is not driven by the harness. -/
+theorem netpoll_shrinks_free_only_empty (net : String) (dflt : Int) :
+    SafeShrinks { network := net, dflt := dflt, shrinks := MosnVerif.Gen.ReadLoopConn.netpollShrinks } := by
+  intro sh hsh alloc len cap h
+  simp only [MosnVerif.Gen.ReadLoopConn.netpollShrinks, List.mem_cons, List.not_mem_nil, or_false] at hsh
+  rcases hsh with rfl | rfl <;>
+    (simp only [MosnVerif.Gen.ReadLoopConn.netpollShrinkCond0, MosnVerif.Gen.ReadLoopConn.netpollShrinkCond1,
+      Bool.and_eq_true, decide_eq_true_eq] at h; omega)
+
+theorem no_stray_buffer_discard : MosnVerif.Gen.ReadLoopConn.strayBufferCalls = [] := by decide
+
 /-- the executable predicate `specReadLoop` (evaluated by the driver on the implementation's output of every `rl`
 case) holds of the model: a stream of valid frames plus an incomplete tail, read in any chunks with any stalls -/
 theorem spec_readloop_holds_on_model (dflt : Int) (d : Bytes → Step Bytes) (hs : Stable d) (fs : List Bytes) (t : Bytes)
